@@ -7,7 +7,7 @@ NOTES = ('Technique family: static analysis only. Every check re-extracts the ty
          'again on the tls_rustls, tls_openssl and dns_lookup build configurations (rule ids <id>@<cfg>), plus the '
          'compile-fail witness of C18. Facts a property relies on from another property are imported rule-wise '
          '(DESIGN.md 9.5). bin/mutants is the self-test (hand-written mutants, reverse patches of every fix: commit, and '
-         '100 independently seeded changes with must-report / must-stay-silent expectations per check, and 50 independently written '
+         '110 independently seeded changes with must-report / must-stay-silent expectations per check, and 62 independently written '
          'behaviour-preserving refactorings on which every check must stay silent).')
 
 TRUST = ('Trusted base: rustc nightly THIR/MIR for this source (same cfgs as the stable build), the library '
@@ -39,7 +39,7 @@ CHECKS = {
         'technique': 'wiring checks: argument/field provenance of the timer set-up calls, must-reach on the registration success path, select-arm addressing, typestate of the notifier slot (assignment only when empty or after take)',
         'level': ('Decides only the wiring that is necessary for the keep-alive property: token echoed, waker armed on every '
                   'registration with ping_timeout, every PING arms a pong_timeout deadline reporting to this session, expiry ends the '
-                  'session, PONG fires the notifier (the only place that may empty the notifier slot), and a pending deadline is not silently cancelled (the pinned tree violated this; '
+                  'session, PONG fires the notifier (the only place that may empty the notifier slot), a registered connection keeps passing the registration gate (imported from C03, else its PONG is never processed), and a pending deadline is not silently cancelled (the pinned tree violated this; '
                   'repaired by fix cd06724). Timing bounds ("no later than", "never while answering") are NOT decided.'),
         'note': TRUST + ' Timing and scheduler fairness are runtime quantities (declined).',
     },
@@ -47,7 +47,7 @@ CHECKS = {
         'technique': 'offset-coordinate rule for re-sliced pieces of the line, exhaustive error-variant -> reply mapping by path-condition reachability, table agreement (verb literals / CommandId / Command / index / counter array / HELP), validator census per Command field, template decoding of every format string, idiom classification of the trailing-parameter split with a constructive counterexample',
         'level': ('Decides the structural necessary conditions of the parsing/framing property: total pre-execution error mapping '
                   '(421/461/472/501/696/417/ERROR), agreement of all command tables, 461 naming its own verb, validation before '
-                  'execution with the right validator per field, CR LF encoder constants and single socket writer, colon-introduced '
+                  'execution with the right validator per field, every Command field built from the message parameters verbatim and the tokeniser given the decoded line itself, CR LF encoder constants and single socket writer, colon-introduced '
                   'that the name validators accept only non-empty names without space, comma or colon (the pinned tree accepted empty names and names with a space given as trailing parameter; repaired by fix 620a70d), trailing free text in every relay/reply template, the serialiser\'s colon condition, the offset arithmetic of the re-sliced prefix, and the delimiter idiom of the '
                   'tokeniser (the pinned tree split at a bare colon; repaired by fix e9ef753).'),
         'note': TRUST + ' The tokeniser\'s agreement with the grammar over ALL strings (blank runs, tabs, multi-byte text) is a runtime-value property and is not decided.',
